@@ -9,10 +9,16 @@ try:
 except FileNotFoundError:
     na_reasons = {}
 hooks = json.load(open(os.path.join(ROOT, "checks", "hooks.json")))
+# a check is claimed only once the maintainer has reviewed it and it exits 0 on the unchanged tree with the
+# committed KNOWN_FINDINGS.txt: checks/claimed.txt lists those property ids (one per line, # comments)
+claimed = set(l.split("#")[0].strip() for l in open(os.path.join(ROOT, "checks", "claimed.txt")) if l.split("#")[0].strip())
 checks, na = [], []
 for p in props:
     pid = p["id"]
     c = cfg.get(pid)
+    if c is not None and pid not in claimed:
+        na.append({"property_id": pid, "reason": na_reasons.get(pid, "a generated check exists (harness/%s) but is still under review/triage by the maintainer and is therefore not claimed yet" % pid.lower())})
+        continue
     if c is None or c.get("disabled"):
         na.append({"property_id": pid, "reason": na_reasons.get(pid, "check not built yet (see DESIGN.md section 4 for the planned generator and oracle)")})
         continue
